@@ -516,8 +516,8 @@ def all_empty_method(prog, m, holders):
 def entry_removal_guarded(ctx, prog, path_fns):
     n = 0
     for f in path_fns:
-        if lib.impl_self_name(f) != "ReactCache":
-            continue
+        # every function on the revoke path (a helper outside `impl ReactCache` that deletes entries of a table passed to it
+        # is read like the methods; what cannot be understood there fails on this view and is decided on the inlined one)
         fk = lib.fkey(f)
         for b, t, fr in f.iter_calls():
             if not (fr and lib.tail(mir.fn_name(fr), 2) == "HashMap::remove"):
